@@ -14,7 +14,8 @@ anything else (keyword arguments, attribute/subscript targets, comprehensions, s
   expressions  int / float literals (decimal value as exact rational), names (locals, module-level numbers,
                imported numbers), + - * / ** // %, unary - +, not, and/or, comparisons incl. chains, conditional
                expression, abs/min/max, calls of plain Python functions reachable through the module's globals or
-               through modules (``f(x)``, ``mod.f(x)``, ``pkg.mod.f(x)``), ``math.<fn>(x)`` as opaque ``fn`` node.
+               through modules (``f(x)``, ``mod.f(x)``, ``pkg.mod.f(x)``) with positional and keyword arguments
+               (``f(x, b=y)``; the callee may have numeric defaults), ``math.<fn>(x)`` as opaque ``fn`` node.
 The CPython cross-check of the encoder (run the original function, compare with the spec's Run) is done by the caller.
 """
 
@@ -76,10 +77,14 @@ class _Enc:
         if not isinstance(fd, ast.FunctionDef):
             raise OutsideSubset("not a plain function definition")
         a = fd.args
-        if a.vararg or a.kwarg or a.kwonlyargs or a.posonlyargs or a.defaults or a.kw_defaults:
-            raise OutsideSubset("only plain positional parameters")
+        if a.vararg or a.kwarg or a.kwonlyargs or a.posonlyargs or a.kw_defaults:
+            raise OutsideSubset("only plain positional-or-keyword parameters")
         self.fd = fd
         self.params = [x.arg for x in a.args]
+        # default values are the objects Python evaluated at definition time
+        self.defs = [_num(v)["v"] if not isinstance(v, bool) else None for v in (fn.__defaults__ or ())]
+        if None in self.defs:
+            raise OutsideSubset("boolean default")
         self.locals = set(self.params) | _assigned(fd.body)
         self.globals = dict(getattr(fn, "__globals__", {}))
         if fn.__closure__:
@@ -154,10 +159,13 @@ class _Enc:
         if isinstance(e, ast.IfExp):
             return {"k": "ite", "c": self.expr(e.test), "a": self.expr(e.body), "b": self.expr(e.orelse)}
         if isinstance(e, ast.Call):
-            if e.keywords or any(isinstance(x, ast.Starred) for x in e.args):
-                raise OutsideSubset("keyword / starred arguments")
-            args = [self.expr(x) for x in e.args]
+            if any(k.arg is None for k in e.keywords) or any(isinstance(x, ast.Starred) for x in e.args):
+                raise OutsideSubset("** / starred arguments")
+            args = [self.expr(x) for x in e.args] + [self.expr(k.value) for k in e.keywords]
+            kw = [""] * len(e.args) + [k.arg for k in e.keywords]
             target = self.resolve(e.func)
+            if e.keywords and not isinstance(target, types.FunctionType):
+                raise OutsideSubset("keyword arguments of a library function")
             if target is abs and len(args) == 1:
                 return {"k": "abs", "a": args[0]}
             if target in (min, max) and len(args) >= 2:
@@ -172,8 +180,8 @@ class _Enc:
                     raise OutsideSubset(f"two different functions named {name}")
                 if name not in self.ft:
                     sub = _Enc(target, self.ft, (*self.stack, self.fn))
-                    self.ft[name] = {"k": "fn", "params": sub.params, "body": sub.body(), "_obj": target}
-                return {"k": "call", "name": name, "args": args}
+                    self.ft[name] = {"k": "fn", "params": sub.params, "body": sub.body(), "defs": sub.defs, "_obj": target}
+                return {"k": "call", "name": name, "args": args, "kw": kw}
             raise OutsideSubset(f"call of {getattr(target, '__name__', target)!r}")
         raise OutsideSubset(f"expression {type(e).__name__}")
 
@@ -254,4 +262,4 @@ def encode_function(fn) -> dict:
     if clash:
         raise OutsideSubset(f"name used both as local and as constant: {sorted(clash)}")
     clean = {k: {kk: vv for kk, vv in v.items() if kk != "_obj"} for k, v in ft.items()}
-    return {"name": fn.__name__, "params": enc.params, "body": body, "ft": clean}
+    return {"name": fn.__name__, "params": enc.params, "body": body, "defs": enc.defs, "ft": clean}
